@@ -345,7 +345,7 @@ def select_cases(recs, uni, tier, rnd):
     error kinds / some property contested by two specifiers / plain)."""
     if tier == "thorough":
         budget = int(os.environ.get("C06_THOROUGH_BUDGET", "9000"))
-        full = ("Object", "K")
+        full = tuple(os.environ.get("C06_THOROUGH_FULL", "Object,K").split(","))
     else:
         budget = int(os.environ.get("C06_QUICK_BUDGET", "3000"))
         full = ()
